@@ -6,7 +6,7 @@ CFG = dict(
          "sent to the three Go matchers, to convertLikeToFunction, and through SQL in WHERE / CASE / HAVING position; "
          "IS [NOT] NULL ops over missing/NULL/present cells on four SQL paths; distinct = distinct op line",
     assumptions=["expr-lang's ==, startsWith, endsWith, contains on strings are Go string equality / strings.HasPrefix / HasSuffix / Contains (validated only by the SQL-level correspondence)",
-                 "LIKE with a NULL/missing text is outside the property's quantifier and not generated"],
+                 "LIKE with a NULL/missing text is 'not true' (read off the property's 'true exactly when the whole text of x matches'); generated only inside the combined CASE / HAVING forms (`combo` ops), where both evaluation paths agree on it"],
 )
 META = dict(
    text="Proof: for every text and pattern over any alphabet the two-pointer matcher model equals the declarative LIKE relation, "
